@@ -61,5 +61,8 @@ func Marshal(val cty.Value, t cty.Type) ([]byte, error) {
 // may be a cty.PathError.
 func Unmarshal(buf []byte, t cty.Type) (cty.Value, error) {
 	var path cty.Path
+	// Optional-attribute annotations belong to type constraints; the type of a
+	// value never carries them (they play no part in decoding either).
+	t = t.WithoutOptionalAttributesDeep()
 	return unmarshal(buf, t, path)
 }
